@@ -9,7 +9,7 @@ from gen_programs import Gen, Scope
 
 PID = "C02"
 MANIFEST = {
-    "text": "70 Coq theorems.  C02ALL round: C02's theorems now speak about the evaluator the ALL / TEXT-EVAL streams run "
+    "text": "71 Coq theorems.  C02ALL round: C02's theorems now speak about the evaluator the ALL / TEXT-EVAL streams run "
             "(EvalAll.binop_all o / builtin_all o: EVERY row of the regenerated built-in table and `^`, library behaviour as "
             "fields of the oracle record o), for EVERY oracle o: ops_wf / ops_nm / old-cells-untouched with NO hypothesis on o "
             "(the 17 new arms are pure and return a number, string or null; `^` is eval_binop with the oracle's powf), "
@@ -29,7 +29,9 @@ MANIFEST = {
             "for the depth error, generalised to two pairs of dispatchers); hence an evaluation that, with the time_now arm "
             "poisoned, does not end in Unmodelled — i.e. never calls time_now — is the same under every clock reading "
             "(C02_eval_same_under_every_clock), and eval-twice holds with the clock advancing between the two evaluations "
-            "when the second does not read it (C02_eval_twice_across_clock_noclock).  LET2 round: WEAKENING IS PROVED (C02_weakening, _impl, _generic; proofs/C02Weak.v): a binding "
+            "when the second does not read it (C02_eval_twice_across_clock_noclock); and AllExtends.v's conservative extension "
+            "lifts from the dispatchers to the evaluator (C02_eval_all_extends_full: where eval_full does not end in "
+            "Unmodelled, eval_all o computes the same outcome, store and scope chain, every oracle).  LET2 round: WEAKENING IS PROVED (C02_weakening, _impl, _generic; proofs/C02Weak.v): a binding "
             "of a name x that nothing mentions changes nothing — from scope chains that agree on every name other than x and "
             "the same store, an expression in which x does not occur (nocc: not as identifier, {x} key, assignment target or "
             "parameter) evaluates to the same outcome and store, the chains stay in agreement, and no value mentioning x "
